@@ -62,6 +62,16 @@ fn main() {
             let v: serde_json::Value = serde_json::from_str(&txt).expect("replay file is not JSON");
             let check = v["check"].as_str().expect("check").to_string();
             let a: Vec<String> = v["args"].as_array().expect("args").iter().map(|x| x.as_str().unwrap().to_string()).collect();
+            if a.first().map(|x| x == "rerun").unwrap_or(false) {
+                // a violation noticed outside a judge's own comparison (a denormalised Duration handed out): the
+                // replay is the quick tier of the property's check itself
+                let id = v["property"].as_str().expect("property").to_string();
+                let (_, run, _) = props::table().into_iter().find(|(p, _, _)| *p == id).expect("property");
+                println!("replay check={check}: re-running {id} quick");
+                let mut rep = Report::new(&id, "quick");
+                run(&mut rep);
+                std::process::exit(rep.finish());
+            }
             let mut out = Local::new();
             out.verbose = true;
             let mut found = false;
